@@ -535,10 +535,29 @@ static void run_stream(FILE *in)
       if (lchown(real, (uid_t) atoi(t[ui]), (gid_t) atoi(t[ui + 1]))) perror("lchown");
       printf("rc=0\n"); free(p); free(real);
     } else if (!strcmp(c, "sec")) {
+      /* the same final settings through differently ordered (and partly redundant) setter calls */
+      static TL unsigned sec_no = 0;
+      int nolinks = t[3][0] == '1';
       econf_reset_security_settings();
-      if (t[1][0] != '-') econf_requireOwner((uid_t) atoi(t[1]));
-      if (t[2][0] != '-') econf_requireGroup((gid_t) atoi(t[2]));
-      econf_followSymlinks(t[3][0] != '1');
+      switch (sec_no++ % 4) {
+      case 0:
+        if (t[1][0] != '-') econf_requireOwner((uid_t) atoi(t[1]));
+        if (t[2][0] != '-') econf_requireGroup((gid_t) atoi(t[2]));
+        econf_followSymlinks(!nolinks); break;
+      case 1:
+        econf_followSymlinks(!nolinks);
+        if (t[2][0] != '-') econf_requireGroup((gid_t) atoi(t[2]));
+        if (t[1][0] != '-') econf_requireOwner((uid_t) atoi(t[1])); break;
+      case 2:
+        econf_followSymlinks(false);                      /* set, then set back */
+        if (t[1][0] != '-') { econf_requireOwner((uid_t) 77777); econf_requireOwner((uid_t) atoi(t[1])); }
+        if (t[2][0] != '-') econf_requireGroup((gid_t) atoi(t[2]));
+        econf_followSymlinks(!nolinks); break;
+      default:
+        if (t[1][0] != '-') econf_requireOwner((uid_t) atoi(t[1]));
+        if (nolinks) econf_followSymlinks(false);         /* the default is not restated */
+        if (t[2][0] != '-') econf_requireGroup((gid_t) atoi(t[2])); break;
+      }
       printf("rc=0\n");
     } else if (!strcmp(c, "confdirs")) {
       int n; char **l = dec_list(t[1], &n);
